@@ -4,8 +4,8 @@ C14 (OpenMetrics half) — the OpenMetrics parser is total: any input ends in fa
 Statement of the property for the model: for every input string and every choice of the number parameters
 (`int()`, `float()`, comparisons, `math.isnan`, the regex classes), `omParse` returns `.ok` or `.error .valueError` —
 never another class, never `timeout` (= the loops terminate).  On the unchanged tree this is FALSE: the witness
-theorems below (kernel-evaluated on the model) exhibit KeyError, TypeError, AttributeError (three sites), IndexError
-(two sites) and OverflowError, each confirmed on the real parser by the harness (`harness/props/c14om.py`, corpus).
+theorems below (kernel-evaluated on the model) exhibit KeyError, TypeError, AttributeError (three sites) and
+OverflowError (IndexError, F8, two sites: repaired during this work), each confirmed on the real parser by the harness (`harness/props/c14om.py`, corpus).
 
 What is proved, for every input and every parameter choice:
 * `parse_timestamp_total`, `parse_remaining_text_total`, `parse_sample_total`, `parse_labels_om_total`
@@ -96,11 +96,16 @@ theorem witness_attributeError_labels_get :
     errOf (parseDoc "# TYPE a histogram\n{\"a_bucket\"} {count:1,sum:1,schema:1,zero_threshold:1,zero_count:1}\n# EOF\n") = some .attributeError := by
   decide
 
-/-- F8: a metadata name token made of whitespace other than the space -/
-theorem witness_indexError_metadata : errOf (parseDoc "# HELP \t x\n# EOF\n") = some .indexError := by decide
+/-- F8 (repaired in /repo, commit e804336, and in the shared `ParseCore.unquoteUnescape`): a metadata name token made
+of whitespace other than the space used to raise IndexError (`text[0]` after `strip()`); now ValueError -/
+theorem f8_repaired_metadata : errOf (parseDoc "# HELP \t x\n# EOF\n") = some .valueError := by decide
 
-/-- new site of F8: a sample whose quoted name is blank -/
-theorem witness_indexError_sample_name : errOf (parseDoc "{\" \"} 1\n# EOF\n") = some .indexError := by decide
+/-- the second site of F8 found here — a sample whose quoted name is blank (`{" "} 1`) — goes through the same
+function and is repaired by the same change -/
+theorem f8_repaired_sample_name : errOf (parseDoc "{\" \"} 1\n# EOF\n") = some .valueError := by decide
+
+/-- `_unquote_unescape` is total since the repair -/
+theorem unquote_unescape_total (t : Str) : ∀ e, unquoteUnescape t = .error e → e = .valueError := unquoteUnescape_safe' t
 
 /-- new: `math.isnan(<int too large for a float>)` (the toy instance puts the limit at 10^6, CPython near 2^1024) -/
 theorem witness_overflowError : errOf (parseDoc "# TYPE a counter\na_total 1000000\n# EOF\n") = some .overflowError := by decide
